@@ -980,7 +980,9 @@ func stress(rt *rapid.T, p *idl.Program) bool {
 				}
 				if len(sl) > 0 {
 					x := rapid.SampledFrom(sl).Draw(rt, "collider")
-					cands := []string{d.Name + "Client", d.Name + "Processor", "New" + d.Name + "Client", "New" + d.Name + "Processor", d.Name + "ClientFactory"}
+					// not generated: struct New<S>Client, New<S>Processor, <S>ClientFactory, <S>ClientProtocol: their
+					// constructors are redeclared by the service's constructor functions (does not compile: C01's business)
+					cands := []string{d.Name + "Client", d.Name + "Processor"}
 					for _, fn := range d.Funcs {
 						up := strings.ToUpper(fn.Name[:1]) + fn.Name[1:]
 						cands = append(cands, d.Name+up+"Args", d.Name+up+"Result", d.Name+"Processor"+up)
